@@ -1,8 +1,11 @@
 (* Properties/C14.v — C14: the tiered store never serves stale data or loses concurrent list updates.
    Model: Model/Hybrid.v (one thread step = one tier call; the asynchronous cache write-back is its own thread;
    per-call tier failures), prefix tables regenerated from /repo (Gen/C14.v, GenTables).  `fix_incr`/`fix_setnx`
-   = true is the repaired code of fixes/C14-incr.diff, false the pinned code. *)
-From TX Require Import Base.Val Model.Hybrid Model.HybridNodes Proofs.Hybrid Proofs.HybridOne Proofs.SideC14 Gen.C14 Corr.C14.
+   = true is the repaired code of fixes/C14-incr.diff (applied), false the pinned code.  `fix_wb`, `fix_list`, `fix_cwf`, `fix_cre` select
+   the four proposed repairs fixes/C14-writeback-key-lock.diff, C14-list-rmw-key-lock.diff, C14-failed-cache-write-invalidate.diff and
+   C14-cache-read-error.diff (true = repaired = Current once applied; false = the code they repair, kept for the `_refuted` witnesses:
+   cfg_local / cfg_shared in Proofs/SideC14.v).  A caller's step is ONE tier call or ONE acquisition of the key lock. *)
+From TX Require Import Base.Val Model.Hybrid Model.HybridNodes Proofs.Hybrid Proofs.HybridOne Proofs.HybridLock Proofs.SideC14 Gen.C14 Corr.C14.
 
 (* (1) TIER ROUTING, all keys, all schedules, any number of callers, any tier failures (repaired code):
    every tier call ever made for an operation on key k addresses a tier of k's class — the ONE cache tier
@@ -56,18 +59,18 @@ Theorem C14_tier_routing_pinned_refuted :
 Proof. exact (conj pinned_incr_witness pinned_setnx_witness). Qed.
 Print Assumptions C14_tier_routing_pinned_refuted.
 
-(* (3) NO STALE READ, guarded: on every key with a single tier (runtime keys, shared keys, every key when persistence is
+(* (3a) NO STALE READ on the code WITHOUT the key lock (fix_wb = false), guarded: on every key with a single tier (runtime keys, shared keys, every key when persistence is
    disabled) — for ANY number of callers doing Set/Get/Delete/Exists/Incr/SetNX and ANY schedule, the completed
    operations in completion order are a legal history of ONE register: every Get returns the value of the latest
    completed mutation.  (Write-backs do not exist there; the excluded region is exactly the two-tier keys of the
    refuted statements below, and get-modify-set list updates.) *)
 Theorem C14_no_stale_single_tier_all_schedules :
   forall (c : cfg) (k : kbytes) (w : world) (ts : list thread) (sched : list nat),
-  fix_incr c = true -> fix_setnx c = true -> two_tier GenTables c k = false ->
+  fix_incr c = true -> fix_setnx c = true -> fix_wb c = false -> two_tier GenTables c k = false ->
   w_spawned w = [] -> w_hist w = [] -> Forall (thread1_ok k) ts ->
   let r := hrun GenTables c w ts sched in
   linearized (tget w (cache_tier_for_key GenTables c k) k) (w_hist (fst r)) (tget (fst r) (cache_tier_for_key GenTables c k) k).
-Proof. intros c k w ts sched Hi Hn H1 Hs Hh Hts. exact (proj1 (proj2 (single_tier_linearizable GenTables c Hi Hn k H1 _ w ts sched Hs Hh eq_refl Hts))). Qed.
+Proof. intros c k w ts sched Hi Hn Hw H1 Hs Hh Hts. exact (proj1 (proj2 (single_tier_linearizable GenTables c Hi Hn Hw k H1 _ w ts sched Hs Hh eq_refl Hts))). Qed.
 Print Assumptions C14_no_stale_single_tier_all_schedules.
 
 (* counters: in a legal history of Incr calls the values handed out are pairwise distinct (repaired Incr) *)
@@ -77,7 +80,48 @@ Theorem C14_incr_values_distinct :
 Proof. intros init h st Hl Ho. exact (proj2 (incr_sorted init h st Hl Ho)). Qed.
 Print Assumptions C14_incr_values_distinct.
 
-(* the full statement, for every key class, is FALSE of the faithful model (recorded known findings): *)
+(* (3)+(4) NO STALE READ and LIST UPDATES ALL TAKE EFFECT, the REPAIRED code (key lock + synchronous cache fill + list operations under the
+   lock), EVERY key class (two-tier keys included), ANY number of callers, EVERY schedule of tier calls and lock acquisitions, from every
+   coherent initial state (warm or cold cache):
+     - the completed operations, in completion order, are a legal history of ONE register: every Get returns the value of the latest
+       completed Set / not found after Delete / the list with every completed AppendToList and RemoveFromList applied — no stale read,
+       no resurrected key, no lost list update;
+     - whenever the key's lock is free, the facade shows exactly that register value and the cache tier holds nothing or exactly what
+       the persistent tier holds;
+     - no write-back is ever spawned.
+   Operations: Set/Get/Delete/AppendToList/RemoveFromList on two-tier keys, all eight on single-tier keys; callers' tier calls do not
+   fail (single failures: C14_failed_cache_write_partial, C14_cache_read_error_partial). *)
+Theorem C14_no_stale_all_schedules :
+  forall (c : cfg) (k : kbytes) (w : world) (ts : list thread) (sched : list nat),
+  fix_incr c = true -> fix_setnx c = true -> fix_wb c = true -> fix_list c = true ->
+  w_spawned w = [] -> w_hist w = [] -> w_locks w k = false -> coherent GenTables c w k ->
+  Forall (idle_thread GenTables c k) ts ->
+  let r := hrun GenTables c w ts sched in
+  exists st,
+    linearized (visible GenTables c w k) (w_hist (fst r)) st /\
+    (w_locks (fst r) k = false -> visible GenTables c (fst r) k = st /\ coherent GenTables c (fst r) k) /\
+    w_spawned (fst r) = [].
+Proof. intros c k w ts sched Hi Hn Hw Hl. exact (lock_all_schedules_spec GenTables c Hi Hn Hw Hl k w ts sched). Qed.
+Print Assumptions C14_no_stale_all_schedules.
+
+(* the list half spelled out: callers that only append to / remove from / read one list (any key class, any schedule): the list the facade
+   shows once the lock is free is the initial list with ALL completed appends and removes applied in completion order *)
+Theorem C14_list_updates_all_take_effect :
+  forall (c : cfg) (k : kbytes) (w : world) (ts : list thread) (sched : list nat),
+  fix_incr c = true -> fix_setnx c = true -> fix_wb c = true -> fix_list c = true ->
+  w_spawned w = [] -> w_hist w = [] -> w_locks w k = false -> coherent GenTables c w k ->
+  Forall (fun t => match t with
+                   | TCaller cl => cpc cl = PIdle /\ cur cl = None /\ held cl = false /\ faults cl = [] /\
+                                   Forall (fun o => op_key o = k /\ reads_list o = true) (ops cl)
+                   | TWb _ _ => True end) ts ->
+  let r := hrun GenTables c w ts sched in
+  exists st,
+    linearized (visible GenTables c w k) (w_hist (fst r)) st /\
+    (w_locks (fst r) k = false -> visible GenTables c (fst r) k = st).
+Proof. intros c k w ts sched Hi Hn Hw Hl Hs Hh HL Hco Hts. exact (list_updates_repaired c k w ts sched Hi Hn Hw Hl Hs Hh HL Hco Hts). Qed.
+Print Assumptions C14_list_updates_all_take_effect.
+
+(* the code WITHOUT the key lock: the full statement, for every key class, is FALSE of the faithful model (witnesses below): *)
 Definition C14_no_stale_full_statement : Prop :=
   forall (c : cfg) (k : kbytes) (w : world) (ts : list thread) (sched : list nat),
   w_spawned w = [] -> w_hist w = [] -> coherent GenTables c w k -> Forall (thread1_ok k) ts ->
@@ -182,8 +226,59 @@ Theorem C14_cross_node_warm_local_cache_refuted :
 Proof. exact cross_node_warm_local_cache_witness. Qed.
 Print Assumptions C14_cross_node_warm_local_cache_refuted.
 
+(* (6) SINGLE TIER-CALL FAILURES, repaired code, small scope (persistent and shared+persistent key, local or shared cache tier, empty /
+   cold / warm state, the failure at every position of the operation): a Set / AppendToList / RemoveFromList / Delete that reports success
+   is what the next Get returns and leaves cache and persistent tier coherent ... *)
+Theorem C14_failed_cache_write_partial :
+  forallb (fun ck => forallb (fun w => forallb (fun o => forallb (write_then_read_ok (fst ck) (snd ck) w o) (seq 0 8))
+                                               [OSet (snd ck) (VStr 1); OSet (snd ck) (VList [5%N]); OAppend (snd ck) 8; ORemove (snd ck) 7; ODel (snd ck)])
+                             (seq_inits (fst ck) (snd ck)))
+          all_cases_r = true.
+Proof. exact failed_cache_write_small_scope. Qed.
+Print Assumptions C14_failed_cache_write_partial.
+(* ... refuted for the unrepaired code: the cache write of Set(k, v1) fails, Set returns nil, Get returns the old v9 *)
+Theorem C14_failed_cache_write_refuted :
+  let w := nth 2 (seq_inits cfg_local k_user) (init_world empty_store empty_store empty_store) in
+  let '(w1, r) := exec_op_f cfg_local w (OSet k_user (VStr 1)) (fault_at 1) in
+  (r, snd (exec_op GenTables cfg_local w1 (OGet k_user))) = (Some ROk, Some (RVal (VStr 9))).
+Proof. exact failed_cache_write_witness. Qed.
+Print Assumptions C14_failed_cache_write_refuted.
+
+(* cache-only keys: an operation whose cache read fails reports an ERROR (never "not found") and leaves the stored value untouched ... *)
+Theorem C14_cache_read_error_partial :
+  forallb (fun ck => forallb (fun v => forallb (read_fault_ok (fst ck) (snd ck)
+                                                  (tset (init_world empty_store empty_store empty_store) (cache_tier_for_key GenTables (fst ck) (snd ck)) (snd ck) (Some v)))
+                                               [OGet (snd ck); OExists (snd ck); OAppend (snd ck) 8; ORemove (snd ck) 7])
+                             [VList [7%N]; VStr 3])
+          one_tier_cases = true.
+Proof. exact cache_read_error_small_scope. Qed.
+Print Assumptions C14_cache_read_error_partial.
+(* ... refuted for the unrepaired code: Get reports not found, AppendToList overwrites the list [7] with [8] *)
+Theorem C14_cache_read_error_refuted :
+  let w := tset (init_world empty_store empty_store empty_store) TLocal k_temp (Some (VList [7%N])) in
+  (snd (exec_op_f cfg_local w (OGet k_temp) (fault_at 0)),
+   snd (exec_op_f cfg_local w (OAppend k_temp 8) (fault_at 0)),
+   visible GenTables cfg_local (fst (exec_op_f cfg_local w (OAppend k_temp 8) (fault_at 0))) k_temp)
+  = (Some RNotFound, Some ROk, Some (VList [8%N])).
+Proof. exact cache_read_error_witness. Qed.
+Print Assumptions C14_cache_read_error_refuted.
+
+(* the sequential and cross-node small-scope sweeps also hold for the repaired code, now including list operations on a COLD cache *)
+Theorem C14_sequential_repaired_partial :
+  forallb (fun ck => forallb (fun w => forallb (seq_ok (fst ck) (snd ck) w) (seqs 3 (seq_alphabet (snd ck)))) (seq_inits (fst ck) (snd ck)))
+          all_cases_r = true.
+Proof. exact sequential_small_scope_repaired. Qed.
+Print Assumptions C14_sequential_repaired_partial.
+Theorem C14_cross_node_repaired_partial :
+  forallb (fun ck => forallb (fun h => mfresh_ok (fst ck) (snd ck) m_empty h None 9) (mseqs 4 (mstep_alphabet (snd ck)))) all_cases_r = true.
+Proof. exact cross_node_small_scope_repaired. Qed.
+Print Assumptions C14_cross_node_repaired_partial.
+
 (* non-vacuity: concrete callers meet the hypotheses of the single-tier theorem; the witness keys have the classes claimed *)
 Theorem C14_premises_satisfiable :
+  Forall (idle_thread GenTables (cfg_rep true true) k_cmap)
+         [TCaller (init_caller 0 [OGet k_cmap; OAppend k_cmap 8; ODel k_cmap] []); TCaller (init_caller 1 [OSet k_cmap (VList [1%N]); ORemove k_cmap 8] []); TWb 0 false] /\
+  coherent GenTables (cfg_rep true true) w_cold_list k_cmap /\
   two_tier GenTables cfg_local k_temp = false /\
   Forall (thread1_ok k_temp) [TCaller (init_caller 0 [OSet k_temp (VStr 1); OGet k_temp; OIncr k_temp] []); TCaller (init_caller 1 [ODel k_temp; OSetNX k_temp (VStr 2)] []); TWb 0 false] /\
   category GenTables k_user = CPersistent /\ category GenTables k_cmap = CSharedPersistent /\ category GenTables k_temp = CRuntime /\
